@@ -386,7 +386,7 @@ func c13scenarios(quick bool) []c13scn {
 							continue // root selection is documented for the forward walk
 						}
 						for ei, errs := range sel {
-							if quick && n == 4 {
+							if n == 4 {
 								// quick: on 4 nodes, roots x errors restricted to (any, none) + (none, any) + (single, single)
 								if ri > 0 && ei > 0 && !(len(roots) == 1 && len(errs) == 1) {
 									continue
@@ -402,24 +402,42 @@ func c13scenarios(quick bool) []c13scn {
 	return out
 }
 
+// c13bound: the preemption bound explored for a scenario.
+//
+//	quick:    <= 3 services: 2; 4 services: 1
+//	thorough: <= 2 services: 3; 3 services: 3 without root selection, else 2;
+//	          4 services: 2 without root selection and with no failing visit (or one failing visit under limit 1), else 1
+func c13bound(s c13scn, quick bool) int {
+	if quick {
+		if s.d.n >= 4 {
+			return 1
+		}
+		return 2
+	}
+	switch {
+	case s.d.n <= 2:
+		return 3
+	case s.d.n == 3:
+		if len(s.roots) == 0 {
+			return 3
+		}
+		return 2
+	default:
+		if len(s.roots) == 0 && (len(s.errs) == 0 || (len(s.errs) == 1 && s.limit == 1)) {
+			return 2
+		}
+		return 1
+	}
+}
+
 func (c13) Run(c *core.Ctx) {
 	scns := c13scenarios(c.Quick())
-	bound := 2
 	for _, s := range scns {
 		s := s
 		if c.Expired() {
 			return
 		}
-		c.Do(s.id(), func() core.Outcome {
-			b := bound
-			if s.d.n <= 3 && !c.Quick() {
-				b = 3
-			}
-			if s.d.n >= 4 && c.Quick() {
-				b = 1
-			}
-			return s.explore(c, b, "")
-		})
+		c.Do(s.id(), func() core.Outcome { return s.explore(c, c13bound(s, c.Quick()), "") })
 	}
 	c13cyclic(c)
 }
